@@ -455,6 +455,10 @@ func runEVK(c *eng.Ctx, cf cfg, gal bool) {
 					return fmt.Sprintf("GaloisElement=%d want %d NthRoot=%d want %d", gk.GaloisElement, g, gk.NthRoot, nth)
 				})
 			}
+			if good {
+				c.Count("finalised_keys_checked_for_shared_storage", 1)
+				c.Check(!sharesStorage(gadgetRows(&evk.GadgetCiphertext), append(shareRows(agg), matRows(crpFin.Value)...)), "C14|"+P+"."+fin+"|key-shares-storage-with-share-or-crp", nil)
+			}
 			if good && cf.Ext {
 				// a key object that held another key before must end up identical to the fresh one
 				c.Try("C14|"+P+"."+fin, func() {
